@@ -106,4 +106,42 @@ theorem same_value_model_eq_source (a b : Value) :
   cases a <;> cases b <;> simp [Tr._same_value, classOf, valueOf, sameValue]
   rename_i x y; cases x <;> cases y <;> decide
 
+/-! ### `_permutations` (a generator with nested loops) -/
+
+private theorem perm_inner {T} (lst : List T) (i : Int) (x : T) : ∀ (ys : List T) (acc : List (T × T)),
+    Tr._permutations.loop2 lst i x ys acc = .fall (acc ++ ys.map (fun y => (x, y)))
+  | [], acc => by simp [Tr._permutations.loop2]
+  | y :: ys, acc => by
+    rw [Tr._permutations.loop2]
+    show Tr._permutations.loop2 lst i x ys (acc ++ [(x, y)]) = _
+    rw [perm_inner lst i x ys]; simp
+
+private theorem sliceFrom_suffix {α} (pre : List α) (x : α) (rest : List α) :
+    Py.sliceFrom (pre ++ x :: rest) ((pre.length : Int) + 1) = rest := by
+  have h : ¬ ((pre.length : Int) + 1 < 0) := by omega
+  have e : ((pre.length : Int) + 1).toNat = pre.length + 1 := by omega
+  simp only [Py.sliceFrom, Py.normIdx, h, if_false, e, List.length_append, List.length_cons]
+  rw [Nat.min_eq_left (by omega)]
+  rw [show pre ++ x :: rest = (pre ++ [x]) ++ rest by simp]
+  exact List.drop_left' (by simp)
+
+private theorem perm_outer {T} : ∀ (rest pre : List T) (acc : List (T × T)),
+    Tr._permutations.loop1 (pre ++ rest) (Py.enumerateFrom (pre.length : Int) rest) acc = .fall (acc ++ pairsOf rest)
+  | [], pre, acc => by simp [Py.enumerateFrom, Tr._permutations.loop1, pairsOf]
+  | x :: rest, pre, acc => by
+    rw [Py.enumerateFrom, Tr._permutations.loop1, sliceFrom_suffix, perm_inner]
+    simp only []
+    have ih := perm_outer rest (pre ++ [x]) (acc ++ rest.map (fun y => (x, y)))
+    have e1 : pre ++ [x] ++ rest = pre ++ x :: rest := by simp
+    have e2 : (((pre ++ [x]).length : Nat) : Int) = (pre.length : Int) + 1 := by simp
+    rw [e1, e2] at ih
+    rw [ih, pairsOf]; simp
+
+/-- **`_permutations`: model = source** (the generator run to its end yields exactly `pairsOf`, in that order) -/
+theorem permutations_model_eq_source {T} (lst : List T) : Tr._permutations lst = .ok (pairsOf lst) := by
+  unfold Tr._permutations
+  have := perm_outer lst [] []
+  simp only [List.nil_append, List.length_nil, Int.natCast_zero] at this
+  simp only [Py.enumerate, this]
+
 end PyGql.Props.C06
